@@ -1014,7 +1014,9 @@ impl Check for C18 {
 /// (pattern, flags, dialect) triples that a cache with an incomplete key would
 /// confuse: the same text under other flags or the other dialect, the same flags
 /// with a related text. Invalid triples stay in: the error must be the same too.
-const PAIR_PATTERNS: [&str; 16] = ["a*A", "[a-c]", "^a", "a$", "a.c", "(a)\\1", "[k]", "a b", "\\p{Lu}", "\\p{IsLu}", "x+.", "b", "A", "\\$", "(?:a)", "a??"];
+// (the last one: a two-digit reference to a closed group from inside an open one, decided from
+// the set of closed groups - compiling it must give the same program every time)
+const PAIR_PATTERNS: [&str; 17] = ["a*A", "[a-c]", "^a", "a$", "a.c", "(a)\\1", "[k]", "a b", "\\p{Lu}", "\\p{IsLu}", "x+.", "b", "A", "\\$", "(?:a)", "a??", "(x(a)(b)(c)(d)(e)(f)(g)(h)(i)(j)\\11|B)"];
 const PAIR_FLAGS: [&str; 7] = ["", "i", "m", "s", "x", "q", "im"];
 const PAIR_INPUTS: [&str; 11] = ["a", "aA", "a\nb", "a b", "k", "K", "abc", "a$", "^a", "B", "xx"];
 
